@@ -16,6 +16,8 @@ ConversionOK == l > 1 =>
   /\ Len(TI(Cur.T)!AFlatten(Cur.roots[1].F[1])) = Cur.len
   /\ TI(Cur.T)!ArrayWellFormed(Cur.roots[1].F[1]) /\ TI(Cur.T)!ArraySizesAgree(Cur.roots[1].F[1])
   /\ Cur.st.stored = Cur.st.reach
+\* C06: the container built by the conversion reports sizes that agree with its content (prefix + element sizes, header copies)
+BytesSizesAgree == (l > 1 /\ Cur.class = "ok" /\ Len(Cur.roots) = 1) => TI(Cur.T)!ArraySizesAgree(Cur.roots[1].F[1])
 TraceAccepted ==
   LET d == TLCGet("stats").diameter IN
   IF d - 1 = Len(Trace) THEN TRUE
